@@ -40,10 +40,12 @@ def evaluate(ck, data, rules, docg):
             elif d["memory"] and d["memory"][0].endswith("parser.whitespace") and d["memory"][1] == "":
                 sig = "empty-whitespace-token"
             who = blame or ("@" + o["rel"])
+            if sig == "empty-whitespace-token" and blame and T.optkey(o):
+                who = T.optkey(o) + ":" + blame
             ck.violation("reread-differs:%s:%s" % (sig, who), "%s: parsing the emitted text gives %r where the in-memory model has %r (token %d)%s" % (T.tag(o), d["reread"], d["memory"], d["index"], "; first rule application after which the model lost the reader shape / glued code tokens / left adjacent whitespace tokens: " + blame if blame else ""), T.rep(o, oracle="reread", detail=d))
         elif o.get("report_diff"):
             rd = o["report_diff"]
-            site = (rd["only_fresh"] or rd["only_after_fix"])[0][0]
+            site = ((rd["only_fresh"] or rd["only_after_fix"] or [["order-or-multiplicity"]])[0][0])
             ck.violation("report-after-fix-differs:" + site, "%s: the violations reported at the end of the fix run differ from a fresh check of the written text: only fresh %r, only after fix %r" % (T.tag(o), rd["only_fresh"], rd["only_after_fix"]), T.rep(o, oracle="report", detail=rd))
         else:
             same += 1
@@ -80,6 +82,15 @@ def _cli_case(job):
             cfg["rule"][rid] = r.choice([{"fixable": False}, {"severity": "Warning"}, {"severity": "Warning", "fixable": False}])
         if r.random() < 0.34:
             cfg = {}
+        try:
+            import ruletable
+
+            here = os.path.basename(os.path.dirname(src))
+            for row in ruletable.load():
+                if row["disable"] and not row["deprecated"] and row["module"].split(".")[2] == here:
+                    cfg.setdefault("rule", {}).setdefault(row["id"], {})["disable"] = False
+        except Exception:
+            pass
         args = []
         if cfg:
             open(os.path.join(d, "c.yaml"), "w").write(yaml.safe_dump(cfg))
@@ -90,8 +101,11 @@ def _cli_case(job):
         if a is None or b is None:
             return out
         if a != b:
-            only_a = [v for v in a if v not in b][:3]
-            only_b = [v for v in b if v not in a][:3]
+            import collections as _c
+
+            ca, cb = _c.Counter(a), _c.Counter(b)
+            only_a = list((ca - cb).elements())[:3]
+            only_b = list((cb - ca).elements())[:3]
             out["problem"] = {"only_after_fix": only_a, "only_fresh": only_b}
     finally:
         shutil.rmtree(d, ignore_errors=True)
@@ -113,7 +127,7 @@ def cli_extra(ck, data, rules, docg):
         if o["problem"]:
             bad += 1
             pr = o["problem"]
-            site = (pr["only_after_fix"] or pr["only_fresh"])[0][0]
+            site = (pr["only_after_fix"] or pr["only_fresh"] or [("order",)])[0][0]
             ck.violation("cli-report-after-fix-differs:" + site, "%s under %r: the report of `vsg --fix` differs from the report of a plain run on the file it wrote: only after the fix %r, only fresh %r" % (os.path.relpath(o["src"], vlib.REPO), o["cfg"], pr["only_after_fix"], pr["only_fresh"]),
                          {"kind": "input", "file": os.path.relpath(o["src"], vlib.REPO), "config": o["cfg"], "oracle": "cli-report", "detail": pr})
     ck.cov["cli_fix_then_check"] = {"files": len(jobs), "with_configuration": len([o for o in res if o["cfg"]]), "reports_differ": bad}
